@@ -90,7 +90,7 @@ class WsPeer:
         self.recv_by = {}
         self.recv_after_disc = 0
         self.disc_delivered = False
-        self.delivered = []         # message types in delivery order
+        self.delivered_idx = []     # script indexes in delivery order
         self.frames_delivered = 0
         self.sent = []              # (vtime, task name, event copy)
         self.sent_by = {}
@@ -122,7 +122,7 @@ class WsPeer:
             self.ctx.fault("recv_waited")
             await asyncio.sleep(due - now)
         msg = dict(self.script[j])
-        self.delivered.append(msg["type"])
+        self.delivered_idx.append(j)
         if msg["type"] == T_DISCONNECT:
             if not self.disc_delivered:
                 self.ctx.fault("disconnect_delivered")
